@@ -323,6 +323,8 @@ func c08ReadLimit(c *Ctx) {
 				c.OK(rule, key, ci.Pos(), "limit %d is not below the largest packet (%d bytes)", k, maxPacket)
 			case isC:
 				c.Bad(rule, key, ci.Pos(), "websocket messages are capped at %d bytes, below the largest packet the format allows (%d): the same packet stream is accepted or ends the tunnel depending on how it is cut into messages", k, maxPacket)
+			case noLimitOrAtLeast(f, arg(ci, 0), ci, maxPacket, 0):
+				c.OK(rule, key, ci.Pos(), "the limit is zero or negative (none) or raised to at least the largest packet (%d bytes) on every path", maxPacket)
 			default:
 				c.Bad(rule, key, ci.Pos(), "websocket messages are capped at a size this analysis cannot bound from below by the largest packet (%d bytes)", maxPacket)
 			}
@@ -436,6 +438,95 @@ func errResultUsed(call *ssa.Call) bool {
 				return true
 			}
 		}
+	}
+	return false
+}
+
+// noLimitOrAtLeast: at instruction `at` of fn the value v is <= 0 (gorilla: no limit) or >= min on
+// every path: a constant, max(x, K), a phi of such values (an edge value that is not constant must
+// be behind v >= K on that edge), the result of a first-party helper all of whose returns are such
+// values, or a value tested against a constant >= min on the way to `at`.
+func noLimitOrAtLeast(fn *ssa.Function, v ssa.Value, at ssa.Instruction, min int64, depth int) bool {
+	if depth > 4 {
+		return false
+	}
+	for {
+		switch x := v.(type) {
+		case *ssa.Convert:
+			v = x.X
+			continue
+		case *ssa.ChangeType:
+			v = x.X
+			continue
+		}
+		break
+	}
+	if k, ok := constInt(v); ok {
+		return k <= 0 || k >= min
+	}
+	atLeast := func(w ssa.Value) Guard {
+		return GCmp(func(a ssa.Value, op token.Token, b ssa.Value) bool {
+			if strip(a) == strip(w) {
+				if k, ok := constInt(b); ok {
+					return op == token.GEQ && k >= min || op == token.GTR && k >= min-1
+				}
+			}
+			if strip(b) == strip(w) {
+				if k, ok := constInt(a); ok {
+					return op == token.LEQ && k >= min || op == token.LSS && k >= min-1
+				}
+			}
+			return false
+		})
+	}
+	switch x := v.(type) {
+	case *ssa.Call:
+		if bi, isB := x.Call.Value.(*ssa.Builtin); isB && bi.Name() == "max" {
+			for _, a := range x.Call.Args {
+				if k, ok := constInt(a); ok && k >= min {
+					return true
+				}
+			}
+			return false
+		}
+		if cal := x.Call.StaticCallee(); cal != nil && IsFirstParty(cal) && cal.Blocks != nil && cal.Signature.Results().Len() == 1 {
+			for _, r := range returnsOf(cal) {
+				if !noLimitOrAtLeast(cal, unspill(r.Results[0]), r, min, depth+1) {
+					return false
+				}
+			}
+			return true
+		}
+	case *ssa.Phi:
+		for i, e := range x.Edges {
+			if k, ok := constInt(e); ok {
+				if k > 0 && k < min {
+					return false
+				}
+				continue
+			}
+			pred := x.Block().Preds[i]
+			g := atLeast(e)
+			established := false
+			if ifi, ok := pred.Instrs[len(pred.Instrs)-1].(*ssa.If); ok {
+				branch := pred.Succs[0] == x.Block()
+				if pred.Succs[0] != pred.Succs[1] && !edgeOpen(ifi, pred, nil, branch, g) {
+					established = true
+				}
+			}
+			if !established {
+				if pass, _ := mustPass(fn, pred.Instrs[len(pred.Instrs)-1], g); pass {
+					established = true
+				}
+			}
+			if !established && !noLimitOrAtLeast(fn, e, pred.Instrs[len(pred.Instrs)-1], min, depth+1) {
+				return false
+			}
+		}
+		return true
+	}
+	if pass, _ := mustPass(fn, at, atLeast(v)); pass {
+		return true
 	}
 	return false
 }
